@@ -1,9 +1,12 @@
 package sim
 
 import (
+	"bytes"
 	"fmt"
 	"math/big"
 	"strings"
+
+	sdk "github.com/cosmos/cosmos-sdk/types"
 
 	ct "github.com/circlefin/noble-cctp/x/cctp/types"
 
@@ -124,6 +127,92 @@ func thresholdAboveSet(rc *RunCtx) {
 	}
 }
 
+// c09NearSubmitters: one message and one deposit by the same account, then replacements of both submitted by every
+// address that differs from the owner's in two bytes changed alike (xor 0x01 / 0xff), in a compensating +1/-1 pair,
+// or in two bytes exchanged. None of them is the owner; a replacement by the owner before and after must work.
+func c09NearSubmitters(rc *RunCtx) {
+	e, err := NewProdEngine(rc, false, nil, nil)
+	if err != nil {
+		rc.Cov.Inconclusive("near-submitters chain: " + err.Error())
+		return
+	}
+	g := NewGen(e)
+	g.OddAccounts = false
+	p := &ProdGen{E: e, G: g}
+	e.Exec(Tx{Msgs: msgs1(p.ValidSend(false)), Note: "near submitters: original send"})
+	dep := p.ValidDeposit(false, 0).(*ct.MsgDepositForBurn)
+	dep.From, _ = p.funded()
+	dep.Amount = mkInt(big.NewInt(3))
+	e.Exec(Tx{Msgs: msgs1(dep), Note: "near submitters: original deposit"})
+	var msgEm, depEm *Emitted
+	for _, n := range sortedNonces(e.M.Emitted) {
+		em := e.M.Emitted[n]
+		if em.ByModule && depEm == nil && em.Depositor != "" {
+			depEm = em
+		}
+		if !em.ByModule && msgEm == nil {
+			msgEm = em
+		}
+	}
+	if msgEm == nil || depEm == nil {
+		rc.Cov.Inconclusive("near-submitters: no originals")
+		return
+	}
+	control := func(phase string) {
+		r1 := e.Exec(Tx{Msgs: msgs1(&ct.MsgReplaceMessage{From: Bech(msgEm.Sender[12:32]), OriginalMessage: msgEm.Original, OriginalAttestation: e.Attest(msgEm.Original, 0),
+			NewMessageBody: []byte("by the owner"), NewDestinationCaller: Structured32(3)}), Note: "near submitters: replacement by the real sender (" + phase + ")"})
+		r2 := e.Exec(Tx{Msgs: msgs1(&ct.MsgReplaceDepositForBurn{From: depEm.Depositor, OriginalMessage: depEm.Original, OriginalAttestation: e.Attest(depEm.Original, 0),
+			NewDestinationCaller: Structured32(3), NewMintRecipient: Structured32(8)}), Note: "near submitters: replacement by the real depositor (" + phase + ")"})
+		rc.Cov.Cell("near_submitters", "control/"+phase+"/message/"+okWord(r1.OK))
+		rc.Cov.Cell("near_submitters", "control/"+phase+"/deposit/"+okWord(r2.OK))
+	}
+	control("before")
+	idx := 0
+	for _, which := range []string{"message", "deposit"} {
+		own := msgEm.Sender[12:32]
+		if which == "deposit" {
+			own = addrBytes(depEm.Depositor)
+		}
+		n := len(own)
+		for i := 0; i < n; i++ {
+			for j := i + 1; j < n; j++ {
+				for kind := 0; kind < 4; kind++ {
+					idx++
+					if idx%rc.NShards != rc.Shard {
+						continue
+					}
+					b := append([]byte(nil), own...)
+					name := ""
+					switch kind {
+					case 0:
+						b[i], b[j], name = b[i]^0x01, b[j]^0x01, "xor-01-pair"
+					case 1:
+						b[i], b[j], name = b[i]^0xff, b[j]^0xff, "xor-ff-pair"
+					case 2:
+						b[i], b[j], name = b[i]+1, b[j]-1, "plus-minus-pair"
+					default:
+						b[i], b[j], name = b[j], b[i], "exchanged-pair"
+					}
+					if bytes.Equal(b, own) {
+						continue
+					}
+					var m sdk.Msg
+					if which == "message" {
+						m = &ct.MsgReplaceMessage{From: Bech(b), OriginalMessage: msgEm.Original, OriginalAttestation: e.Attest(msgEm.Original, idx%3),
+							NewMessageBody: []byte("not mine"), NewDestinationCaller: Structured32(5)}
+					} else {
+						m = &ct.MsgReplaceDepositForBurn{From: Bech(b), OriginalMessage: depEm.Original, OriginalAttestation: e.Attest(depEm.Original, idx%3),
+							NewDestinationCaller: Structured32(5), NewMintRecipient: Structured32(6)}
+					}
+					r := e.Exec(Tx{Msgs: msgs1(m), Note: fmt.Sprintf("near submitters: %s replaced by an address differing from the owner's in bytes %d and %d (%s)", which, i, j, name)})
+					rc.Cov.Cell("near_submitters", fmt.Sprintf("%s/%s/distance-%d/%s", which, name, j-i, okWord(r.OK)))
+				}
+			}
+		}
+	}
+	control("after")
+}
+
 func prodShards(t string) int { return map[string]int{"quick": 4, "thorough": 16}[t] }
 
 func cellSum(m map[string]int, pred func(string) bool) int {
@@ -196,10 +285,15 @@ func init() {
 		Run: func(rc *RunCtx) {
 			prodCampaign(rc, rc.Pick(4, 10), rc.Pick(1200, 3000))
 			thresholdAboveSet(rc)
+			c09NearSubmitters(rc)
 		},
 		Floors: func(c *Cov, tier string) []string {
 			var miss []string
 			ok := 0
+			if c.Matrix["near_submitters"]["control/after/message/succeeded"] == 0 || c.Matrix["near_submitters"]["control/after/deposit/succeeded"] == 0 || len(c.Matrix["near_submitters"]) < 100 {
+				miss = append(miss, fmt.Sprintf("near-submitter replacements: %d cells, owner controls %d/%d", len(c.Matrix["near_submitters"]),
+					c.Matrix["near_submitters"]["control/after/message/succeeded"], c.Matrix["near_submitters"]["control/after/deposit/succeeded"]))
+			}
 			for _, cls := range ReplacementClasses {
 				n := c.Matrix["producer_steps"]["replace:"+cls+"/ok"] + c.Matrix["producer_steps"]["replace:"+cls+"/fail"]
 				ok += c.Matrix["producer_steps"]["replace:"+cls+"/ok"]
